@@ -41,7 +41,10 @@ def write_outcome(mesh, path, debug_path=None, nblocks=None):
     if nblocks is None:
         nblocks = max(1, len(mesh.operations))
     try:
-        with sched.step_budget(Block, "copy_grading", sched.propagation_budget(nblocks)):
+        # the propagation loop reads Block.is_defined once per visited block and calls copy_grading at most once per
+        # visit: both are budgeted, so a loop that spins without calling copy_grading is cut as well
+        budget = sched.propagation_budget(nblocks)
+        with sched.step_budget(Block, "copy_grading", budget), sched.property_budget(Block, "is_defined", 4 * budget + 8 * nblocks):
             if debug_path is None:
                 mesh.write(path)
             else:
